@@ -85,6 +85,59 @@ static int do_ets() {
     return 0;
 }
 
+// mode "etsclear": the container is emptied (clear / copy assignment / move assignment from an empty one) by ONE thread while other threads have used it and
+// use it again afterwards, for both key types.  Fully ordered by hand-shakes.  Each round: threads 0..T-1 access (exists must be false the first time, true the
+// second, same address); the main thread empties the container; the threads access again: exists must be false, the initialiser must run once per thread, no two
+// threads may share an element, size() and iteration must see exactly the threads that accessed since.   input: seed T rounds how(0 clear,1 copy=,2 move=)
+// output: STALE a (exists reported true after the container was emptied)  SHARED b  INITS c  SIZE d
+template <class ETS> static void etsclear_case(int T, int rounds, int how, long& stale, long& shared, long& initsbad, long& sizebad) {
+    std::atomic<int> inits{0};
+    ETS ets([&] { inits++; return 0L; });
+    std::mutex m; std::condition_variable cv; int phase = 0; std::vector<int> ack(T, 0); bool quit = false;
+    std::vector<long*> addr(T, nullptr); std::vector<int> ex(T, 0);
+    std::vector<std::thread> th;
+    for (int t = 0; t < T; ++t) th.emplace_back([&, t] {
+        int seen = 0;
+        for (;;) {
+            std::unique_lock<std::mutex> lk(m); cv.wait(lk, [&] { return quit || phase != seen; }); if (quit) return; seen = phase; lk.unlock();
+            bool exists = false; long& x = ets.local(exists); x += 1;
+            lk.lock(); addr[t] = &x; ex[t] = exists ? 1 : 0; ack[t] = seen; cv.notify_all();
+        }
+    });
+    auto step = [&] { std::unique_lock<std::mutex> lk(m); phase++; cv.notify_all(); cv.wait(lk, [&] { for (int a : ack) if (a != phase) return false; return true; }); };
+    for (int r = 0; r < rounds; ++r) {
+        int before = inits.load();
+        step();
+        for (int t = 0; t < T; ++t) if (ex[t]) stale++;
+        { std::set<long*> d(addr.begin(), addr.end()); shared += T - (long)d.size(); }
+        if (inits.load() - before != T) initsbad++;
+        { long n = 0; for (auto& x : ets) { (void)x; n++; } if (n != T || (long)ets.size() != T) sizebad++; }
+        std::vector<long*> first = addr;
+        step();
+        for (int t = 0; t < T; ++t) if (!ex[t] || addr[t] != first[t]) stale++;
+        if (how == 0) ets.clear();
+        else if (how == 1) { ETS empty([&] { inits++; return 0L; }); ets = empty; }
+        else { ETS empty([&] { inits++; return 0L; }); ets = std::move(empty); }
+        if (ets.size() != 0) sizebad++;
+    }
+    { std::lock_guard<std::mutex> lk(m); quit = true; cv.notify_all(); }
+    for (auto& x : th) x.join();
+}
+static int do_etsclear() {
+    std::vector<i128> c; Out o; Watchdog wd(30.0);
+    while (read_case(c)) {
+        int T = (int)c[1], rounds = (int)c[2], how = (int)c[3];
+        long stale = 0, shared = 0, initsbad = 0, sizebad = 0;
+        wd.arm(&o);
+        etsclear_case<tbb::enumerable_thread_specific<long>>(T, rounds, how, stale, shared, initsbad, sizebad);
+        etsclear_case<tbb::enumerable_thread_specific<long, tbb::cache_aligned_allocator<long>, tbb::ets_key_per_instance>>(T, rounds, how, stale, shared, initsbad, sizebad);
+        wd.disarm();
+        o.word("STALE"); o.put(stale); o.word("SHARED"); o.put(shared); o.word("INITS"); o.put(initsbad); o.word("SIZE"); o.put(sizebad);
+        o.flush();
+    }
+    return 0;
+}
+
 // etsgrow: the growth window of the thread-id table.  An allocator passed to enumerable_thread_specific holds every thread that
 // allocates a table array (it has incremented my_count and read my_root, it has not yet published its array) until K threads are
 // inside, then releases them together: K threads grow the table at once, from a root that is 0-3 first accesses old.  Then every
@@ -196,6 +249,7 @@ int main(int argc, char** argv) {
     std::string m = argc > 1 ? argv[1] : "";
     if (m == "etsseq") return do_etsseq();
     if (m == "once") return do_once();
+    if (m == "etsclear") return do_etsclear();
     if (m == "etsgrow") return do_etsgrow();
     if (m == "ets") return do_ets();
     return 2;
